@@ -203,3 +203,43 @@ def dispatch_model(ctx):
         vals = {n: ctx.const("rpyc.core.consts", n) for n in ("MSG_REQUEST", "MSG_REPLY", "MSG_EXCEPTION")}
         m = ctx._dispatch_model = LabelModel(ctx, CONN + "._dispatch", 1, 0, vals)
     return m
+
+
+def exact_type_decider(ctx, cfg, varname, tp):
+    """decide(test) for tests on the exact type of local `varname`: `type(v) is/==/in ...`, also through a local alias
+    bound to type(v). isinstance/issubclass tests are left undecided (they are not exact-type tests)."""
+    aliases = set()
+    for n in cfg.live:
+        if n.kind == "stmt" and isinstance(n.ast, ast.Assign) and isinstance(n.ast.targets[0], ast.Name) and \
+                A.src(n.ast.value) == "type(%s)" % varname:
+            aliases.add(n.ast.targets[0].id)
+
+    def is_type_of(x):
+        return A.src(x) == "type(%s)" % varname or (isinstance(x, ast.Name) and x.id in aliases)
+
+    def decide(node):
+        e = node.ast
+        if not (isinstance(e, ast.Compare) and len(e.ops) == 1):
+            return None
+        l, r, op = e.left, e.comparators[0], e.ops[0]
+        if is_type_of(l):
+            other = ctx.try_fold(r)
+        elif is_type_of(r) and isinstance(op, (ast.Is, ast.IsNot, ast.Eq, ast.NotEq)):
+            other = ctx.try_fold(l)
+        else:
+            return None
+        if other is None:
+            return None
+        try:
+            if isinstance(op, (ast.Is, ast.Eq)):
+                return tp is other
+            if isinstance(op, (ast.IsNot, ast.NotEq)):
+                return tp is not other
+            if isinstance(op, ast.In):
+                return tp in other
+            if isinstance(op, ast.NotIn):
+                return tp not in other
+        except TypeError:
+            return None
+        return None
+    return decide
